@@ -22,7 +22,7 @@ def attribute(tag, run, sibling_clean):
         if fam == 'sweep':
             return ['C02']
         return ['C02'] + ((['C04'] + (['C05'] if m == 'lax' else [])) if fam == 'struct' else (['C03'] if m == 'strict' else ['C05']))
-    if tag in ('oob', 'placement'):
+    if tag in ('oob', 'placement') or tag.startswith('c01.'):
         return ['C01']
     if tag.startswith('c04.'):
         return ['C04']
